@@ -54,14 +54,14 @@ META = dict(
 
 
 # ----------------------------------------------------------------------------- shapes
-def make_shape(segs, b_first, inter, tcode, trunc):
+def make_shape(segs, b_first, inter, tcode, trunc, tb_override=None):
     """segs: list of (state, nv_a, nv_b, nchunks); state in present/absent/nodata/same"""
     shape = []
     for k, (state, nva, nvb, nc) in enumerate(segs):
         objs = []
         if inter:
             nvb = nva if state in ('present', 'same') else nvb
-        tb = 2 if not inter else 3
+        tb = (2 if not inter else 3) if tb_override is None else tb_override
         a = None
         if state == 'present':
             a = [A, 'full', tcode, nva]
@@ -104,6 +104,10 @@ def shape_family(tier, seed):
     for tcode in (10, 0x20, 0x44, 8):
         fam.append(make_shape([('present', 2, 1, 2), ('absent', 2, 1, 1), ('present', 2, 1, 2)], False, False, tcode, 0))
         fam.append(make_shape([('present', 3, 1, 1), ('present', 2, 1, 2)], True, False, tcode, 0))
+    # companion channel of another kind (string / 8-byte) stored before or after the target channel
+    for tbo in (0x20, 4):
+        for b_first in (True, False):
+            fam.append(make_shape([('present', 2, 2, 2), ('present', 3, 1, 1)], b_first, False, 3, 0, tb_override=tbo))
     # truncated final chunk (contiguous: a first -> a keeps values; interleaved: whole rows)
     fam.append(make_shape([('present', 2, 1, 2), ('present', 3, 1, 2)], False, False, 3, 6))
     fam.append(make_shape([('present', 2, 1, 2), ('present', 3, 1, 3)], True, False, 3, 5))
@@ -366,6 +370,19 @@ def run_task(task, full=None, tcode=None):
                 ctx.prove(z3.Or(*alts) if alts else z3.BoolVal(False), dict(got=s1.show(g)), what='wrong-data')
                 if ctx.check(ex(i) < 0):
                     ctx.note('index-negative')
+                # a second integer index on the same channel object (the one-chunk cache must not leak into it)
+                if not eager and n > 0:
+                    j = ctx.int('j', -n, n - 1)
+                    try:
+                        got2 = ch[j]
+                    except Exception as e:
+                        ctx.fail('exception', exc=type(e).__name__, msg=str(e)[:100], second_index=True)
+                    if raw_ts and tcode == 0x44:
+                        g2 = ('ts', int(got2.seconds), int(got2.second_fractions))
+                    else:
+                        g2 = canon(np.array([got2]) if tcode != 0x20 else [got2])[0]
+                    alts2 = [z3.Or(ex(j) == c, ex(j) == c - n) for c in range(n) if full[c] == g2]
+                    ctx.prove(z3.Or(*alts2) if alts2 else z3.BoolVal(False), dict(got=s1.show(g2), second_index=True), what='wrong-data')
         finally:
             tf.close()
 
@@ -457,6 +474,15 @@ def replay(art, full=None, tcode=None):
                     got = [('ts', int(g.seconds), int(g.second_fractions))]
                 else:
                     got = canon(np.array([g]) if tcode != 0x20 else [g])
+                if got == exp and 'j' in inp and task['mode'] == 'lazy' and n > 0:
+                    j = inp['j']
+                    req = dict(i=i, then_j=j)
+                    g2 = ch[j]
+                    exp = [full[j]]
+                    if raw_ts and tcode == 0x44:
+                        got = [('ts', int(g2.seconds), int(g2.second_fractions))]
+                    else:
+                        got = canon(np.array([g2]) if tcode != 0x20 else [g2])
         except Exception as e:
             return dict(sig=signature(dict(task=task, what='exception', exc=type(e).__name__, msg=str(e)[:100])),
                         request=req, exception=repr(e)[:200])
